@@ -10,8 +10,9 @@
        part => error, isJSON = "json" among the remaining parts, checkUnmarshal before the
        supported-type switch, first error wins, no tagged field => ErrNoFields, argument that is
        not a pointer to a struct => error;
-     - Fields.Secrets (`secrets_of`) with Go's path.Join/path.Clean on byte strings
-       (`path_join2`, `path_clean`: lexical, segment based);
+     - Fields.Secrets (`secrets_of`) with Go's path.Join/path.Clean on byte strings, for ALL prefixes
+       and tag names, clean or not (Base/Path.v: `go_join`/`go_clean` transcribe path.go's lazybuf
+       algorithm; `path_join2`/`path_clean` are the segment form, proved equal);
      - Fields.Apply / fieldInfo.apply (`apply`): per field LookupSecret(fullName) on the shared
        store (known => handle via secret_locked; unknown and lookups allowed => one request to the
        service, whose answer is an input, then lookup_install; unknown and lookups disabled =>
@@ -29,76 +30,17 @@
    is expressible (the pinned, pre-F6 code produced `CBytes (BStore ..)`). *)
 From Coq Require Import List Bool NArith ZArith.
 Import ListNotations.
-From Setec Require Import Base.SMap Client.Store.
+From Setec Require Import Base.SMap Base.Path Client.Store.
 Set Implicit Arguments.
 
-Definition bstr := list N.
-
-Definition slash : N := 47%N.
-Definition dot : N := 46%N.
 Definition comma : N := 44%N.
 Definition json_word : bstr := [106; 115; 111; 110]%N.   (* "json" *)
 
 Definition beqb (a b : bstr) : bool := neqb a b.
 
-(* ---- strings.Split(s, sep) for a one-byte separator; strings.Join *)
-Fixpoint split_on (sep : N) (s : bstr) : list bstr :=
-  match s with
-  | [] => [[]]
-  | c :: r =>
-    if N.eqb c sep then [] :: split_on sep r
-    else match split_on sep r with
-         | seg :: segs => (c :: seg) :: segs
-         | [] => [[c]]
-         end
-  end.
-
-Fixpoint join_with (sep : N) (segs : list bstr) : bstr :=
-  match segs with
-  | [] => []
-  | s :: r => match r with [] => s | _ => s ++ sep :: join_with sep r end
-  end.
-
-(* ---- path.Clean (lexical): drop empty and "." segments, resolve "..", keep rootedness *)
-Definition is_empty (s : bstr) : bool := match s with [] => true | _ => false end.
-Definition is_dot (s : bstr) : bool := match s with [c] => N.eqb c dot | _ => false end.
-Definition is_dotdot (s : bstr) : bool := match s with [c; d] => N.eqb c dot && N.eqb d dot | _ => false end.
-
-(* stack is kept reversed *)
-Fixpoint clean_segs (rooted : bool) (segs stack : list bstr) : list bstr :=
-  match segs with
-  | [] => rev stack
-  | s :: r =>
-    if is_empty s || is_dot s then clean_segs rooted r stack
-    else if is_dotdot s then
-      match stack with
-      | top :: rest => if is_dotdot top then clean_segs rooted r (s :: stack) else clean_segs rooted r rest
-      | [] => if rooted then clean_segs rooted r [] else clean_segs rooted r [s]
-      end
-    else clean_segs rooted r (s :: stack)
-  end.
-
-Definition path_clean (p : bstr) : bstr :=
-  match p with
-  | [] => [dot]
-  | c :: _ =>
-    let rooted := N.eqb c slash in
-    let out := join_with slash (clean_segs rooted (split_on slash p) []) in
-    if rooted then slash :: out else match out with [] => [dot] | _ => out end
-  end.
-
-(* path.Join(a, b): empty elements are ignored, the rest joined by "/" and cleaned; "" if all empty *)
-Definition path_join2 (a b : bstr) : bstr :=
-  match a, b with
-  | [], [] => []
-  | [], _ => path_clean b
-  | _, [] => path_clean a
-  | _, _ => path_clean (a ++ slash :: b)
-  end.
-
-(* the property's domain: relative, slash separated, no empty / "." / ".." segment (so not empty) *)
-Definition seg_ok (s : bstr) : bool := negb (is_empty s || is_dot s || is_dotdot s).
-Definition clean (p : bstr) : bool := forallb seg_ok (split_on slash p).
+(* bstr, slash, dot, split_on (strings.Split), join_with, path.Clean / path.Join (path_clean, path_join2;
+   go_clean, go_join as the Go source is written) and the notion `clean` of a clean relative path are in
+   Base/Path.v *)
 
 (* ---- struct shapes *)
 Inductive ftype :=
@@ -207,7 +149,9 @@ Definition parse_fields (a : arg) : perr + list pfield :=
   | AStruct _ | ANonStruct | ANil => inl ENotPtrStruct
   end.
 
-Definition full_name (pfx : bstr) (pf : pfield) : name := path_join2 pfx (psecret pf).
+(* path.Join(prefix, tag name) as the Go source computes it (Base/Path.v: go_join, the lazybuf
+   algorithm); = path_join2, the segment form (PathProofs.go_join2_is_path_join2) *)
+Definition full_name (pfx : bstr) (pf : pfield) : name := go_join [pfx; psecret pf].
 Definition secrets_of (pfx : bstr) (pfs : list pfield) : list name := map (full_name pfx) pfs.
 
 (* the tagged names as one reads them off the struct declaration (independent of parse_list) *)
